@@ -148,8 +148,19 @@ LoopProgs == {[p |-> <<Assign("loop", IntL(1), 1)>>, d |-> <<>>],
               [p |-> <<Each("v", Var("ar"), <<Assign("t", V, 1)>>, NoElse, 1), P(Var("t"))>>, d |-> CondData],
               [p |-> <<Each("v", ArrL(<<IntL(1), StrL("s")>>), <<P(V)>>, NoElse, 1)>>, d |-> <<>>]}
 
+\* empty bodies: a branch, an @else or a loop body may be empty (C02: "nothing otherwise")
+EmptyBodies == {<<H("a"), If(<<Br(c1, b1)>>, e, 1), H("z")>> : c1 \in {BoolL(TRUE), BoolL(FALSE)}, b1 \in {<<>>, <<H("[1]")>>}, e \in {NoElse, <<>>, <<H("[e]")>>}}
+          \cup {<<H("a"), If(<<Br(c1, b1), Br(c2, b2)>>, e, 1), H("z")>> : c1 \in {BoolL(TRUE), BoolL(FALSE)}, c2 \in {BoolL(TRUE), BoolL(FALSE)},
+                                                                       b1 \in {<<>>, <<H("[1]")>>}, b2 \in {<<>>, <<H("[2]")>>}, e \in {NoElse, <<>>, <<H("[e]")>>}}
+          \cup {<<H("a"), Each("v", a, b, e, 1), H("z")>> : a \in {ArrL(<<>>), ArrL(<<IntL(1), IntL(2)>>)}, b \in {<<>>, <<P(V)>>}, e \in {NoElse, <<>>, <<H("[e]")>>}}
+          \cup {<<H("a"), For(Assign("i", IntL(0), 1), Bin("<", Var("i"), IntL(n)), Post("++", Var("i")), b, e, 1), H("z")>> :
+                   n \in {0, 2}, b \in {<<>>, <<P(Var("i"))>>}, e \in {NoElse, <<>>, <<H("[e]")>>}}
+          \cup {<<H("a"), If(<<Br(BoolL(TRUE), <<If(<<Br(c, <<>>)>>, e, 1)>>)>>, <<>>, 1), H("z")>> : c \in {BoolL(TRUE), BoolL(FALSE)}, e \in {NoElse, <<>>, <<H("[e]")>>}}
+          \cup {<<H("a"), Each("v", ArrL(<<IntL(1), IntL(2)>>), <<If(<<Br(IsTwo, <<>>)>>, <<Break(1)>>, 1), P(V)>>, NoElse, 1), H("z")>>}
+
 Cases ==
-  CASE Family = "c02chains" -> {[p |-> Ctx(s, c), d |-> CondData, tags |-> <<"c02chains", c>>] :
+  CASE Family = "c02empty" -> {[p |-> p, d |-> CondData, tags |-> <<"c02empty">>] : p \in EmptyBodies}
+    [] Family = "c02chains" -> {[p |-> Ctx(s, c), d |-> CondData, tags |-> <<"c02chains", c>>] :
                                   s \in Chain1(CondsAll) \cup Chain2(CondsSmall), c \in {"top", "else", "each"}}
     [] Family = "c02chains3" -> {[p |-> Ctx(s, c), d |-> CondData, tags |-> <<"c02chains3", c>>] :
                                   s \in Chain3(CondsSmall) \cup Chain2(CondsAll), c \in Ctxs}
